@@ -225,14 +225,16 @@ func (p *Proxy) Serve(l net.Listener) error {
 			tconn.SetKeepAlivePeriod(3 * time.Minute)
 		}
 
+		// Register the connection before its handler is spawned so that a concurrent
+		// Close cannot return while the handler has not yet registered itself.
+		p.connsMu.Lock()
+		p.conns.Add(1)
+		p.connsMu.Unlock()
 		go p.handleLoop(conn)
 	}
 }
 
 func (p *Proxy) handleLoop(conn net.Conn) {
-	p.connsMu.Lock()
-	p.conns.Add(1)
-	p.connsMu.Unlock()
 	defer p.conns.Done()
 	defer conn.Close()
 	if p.Closing() {
